@@ -281,10 +281,16 @@ func settle(base int) int {
 	}
 }
 
+// noTrace: run the workloads without installing the tracer (race-detector pass: the tracer's
+// mutex would add synchronisation that could hide races)
+var noTrace bool
+
 func runScenario(sc scenario, seed int64, sum *core.Summary) *runRec {
 	col := &collector{logs: map[string][]rawEv{}}
-	verifhook.SetTracer(col.trace)
-	defer verifhook.SetTracer(nil)
+	if !noTrace {
+		verifhook.SetTracer(col.trace)
+		defer verifhook.SetTracer(nil)
+	}
 	var calls atomic.Int64
 	yrng := rand.New(rand.NewSource(seed))
 	var ymu sync.Mutex
@@ -347,6 +353,10 @@ func runScenario(sc scenario, seed int64, sum *core.Summary) *runRec {
 	}
 	_ = err
 	leaked := settle(base)
+	// all goroutines of the run have finished; taking the collector's lock once more orders their
+	// last log writes before the reads below
+	col.mu.Lock()
+	defer col.mu.Unlock()
 
 	// renumber tokens (Location identities) and worker actors
 	tok := map[int64]int{0: 0}
@@ -441,6 +451,9 @@ func recordMinimize(out *core.Out, args []string, seed int64, sum *core.Summary)
 		if a == "thorough" {
 			thorough = true
 		}
+		if a == "notrace" {
+			noTrace = true
+		}
 	}
 	byNT := map[int]int{}
 	for _, sc := range scenarios(seed, thorough) {
@@ -456,7 +469,7 @@ func recordMinimize(out *core.Out, args []string, seed int64, sum *core.Summary)
 			continue
 		}
 		byNT[rr.NT]++
-		if nt == 0 || rr.NT == nt {
+		if !noTrace && (nt == 0 || rr.NT == nt) {
 			out.Emit(rr)
 			sum.Traces++
 		}
